@@ -17,13 +17,26 @@ func isIntType(t types.Type) bool {
 }
 
 // derivesFromParse: value derives (locally) from strconv.ParseInt/Atoi/ParseUint.
-func derivesFromParse(v ssa.Value) bool {
+func derivesFromParse(v ssa.Value) bool { return derivesFromParseD(v, 0) }
+
+func derivesFromParseD(v ssa.Value, depth int) bool {
 	found := false
 	backslice(v, func(x ssa.Value) bool {
 		if call, ok := x.(*ssa.Call); ok {
 			if cf := call.Call.StaticCallee(); cf != nil && cf.Pkg != nil && cf.Pkg.Pkg.Path() == "strconv" &&
 				(cf.Name() == "ParseInt" || cf.Name() == "Atoi" || cf.Name() == "ParseUint") {
 				found = true
+			} else if cf != nil && firstParty(cf) && cf.Blocks != nil && depth < 2 {
+				// a helper that reads the stored number (loadInteger(m, key)): some integer result of it is parsed text
+				for _, b := range cf.Blocks {
+					if ret, ok := b.Instrs[len(b.Instrs)-1].(*ssa.Return); ok {
+						for _, rv := range ret.Results {
+							if isIntType(rv.Type()) && derivesFromParseD(rv, depth+1) {
+								found = true
+							}
+						}
+					}
+				}
 			}
 			return false
 		}
@@ -44,8 +57,16 @@ func flowsToFormat(v ssa.Value) bool {
 		for _, r := range *v.Referrers() {
 			switch x := r.(type) {
 			case *ssa.Call:
-				if cf := x.Call.StaticCallee(); cf != nil && cf.Pkg != nil && cf.Pkg.Pkg.Path() == "strconv" && (strings.HasPrefix(cf.Name(), "Format") || cf.Name() == "Itoa") {
+				if cf := x.Call.StaticCallee(); cf != nil && cf.Pkg != nil && cf.Pkg.Pkg.Path() == "strconv" && (strings.HasPrefix(cf.Name(), "Format") || cf.Name() == "Itoa" || strings.HasPrefix(cf.Name(), "Append")) {
 					return true
+				}
+				// handed to a helper that writes the number back (storeInteger(m, key, n))
+				if cf := x.Call.StaticCallee(); cf != nil && firstParty(cf) && cf.Blocks != nil && d < 6 {
+					for i, a := range x.Call.Args {
+						if a == v && i < len(cf.Params) && walk(cf.Params[i], d+3) {
+							return true
+						}
+					}
 				}
 			case *ssa.Phi:
 				if walk(x, d+1) {
